@@ -27,7 +27,7 @@ from harness.common import cbool, clist, copt
 PROPERTY = "C17"
 LEVEL = "proof"
 
-REQS = ["OV.Registry.OpsetMethod", "OV.Gen.OpsetMethods", "OV.Gen.OpsetSchemas"]
+REQS = ["OV.Registry.OpsetMethod", "OV.Registry.OpsetEmit", "OV.Gen.OpsetMethods", "OV.Gen.OpsetSchemas"]
 _STATE = {}
 
 
@@ -50,8 +50,9 @@ def regenerate(ctx):
                         errors.append((c["file"], st.lineno, f"class/module-level assignment to operator name {t.id}"))
     for f, line, why in errors:
         ctx.tie_broken("translator", f"{f}:{line}", why)
-    _STATE.update(classes=classes, exposed=exposed, recs=recs, errors=errors)
-    ctx.gen("OpsetMethods", E.classes_file(classes))
+    exempt = E.exempt_ops(classes, recs)
+    _STATE.update(classes=classes, exposed=exposed, recs=recs, errors=errors, exempt=exempt)
+    ctx.gen("OpsetMethods", E.classes_file(classes, exempt))
     ctx.gen("OpsetSchemas", E.schemas_file(recs))
 
 
@@ -130,12 +131,16 @@ def coq_failures(ctx):
         '(fst (fst x) ++ "|" ++ snd (fst x) ++ "|" ++ String.concat "," (snd x))%string.\n'
         'Definition show2 (x : string * string * Z * Z) : string := (fst (fst (fst x)) ++ "|" ++ snd (fst (fst x)))%string.\n'
         "Definition dep := deprecated_inherited OpsetSchemas.schemas OpsetMethods.classes.\n"
-        "Eval vm_compute in (map show3 (registry_failures OpsetSchemas.schemas OpsetMethods.classes)).\n"
+        "Definition exm := exempt_in OpsetMethods.exempt_ops.\n"
+        "Eval vm_compute in (map show3 (registry_failures exm OpsetSchemas.schemas OpsetMethods.classes)).\n"
         "Eval vm_compute in (map show2 dep).\n"
-        "Eval vm_compute in (List.concat (map (fun x => [snd (fst x); snd x]) dep))."
+        "Eval vm_compute in (List.concat (map (fun x => [snd (fst x); snd x]) dep)).\n"
+        'Eval vm_compute in (map (fun x => (fst x ++ "|" ++ String.concat "," (snd x))%string) '
+        "(emitted_diff exm OpsetSchemas.schemas OpsetMethods.classes)).\n"
+        "Eval vm_compute in (map s_name (filter (fun s => negb (schema_wfb s)) OpsetSchemas.schemas))."
     )
     ok, vals, raw = safe_eval(ctx, body, "failures")
-    if not ok or len(vals) != 3:
+    if not ok or len(vals) != 5:
         ctx.tie_broken("translator", "Gen/OpsetMethods.v", "model does not evaluate on the regenerated data: " + raw[-1500:])
         return None, None, None
     fails = [tuple(s.split("|")) for s in parse_str_list(vals[0])]
@@ -143,6 +148,8 @@ def coq_failures(ctx):
     names = [tuple(s.split("|")) for s in parse_str_list(vals[1])]
     nums = common.parse_nat_list(vals[2])
     dep = [(c, op, nums[2 * i], nums[2 * i + 1]) for i, (c, op) in enumerate(names)]
+    _STATE["emitted_diff"] = [tuple(x.split("|")) for x in parse_str_list(vals[3])]
+    _STATE["not_wf"] = parse_str_list(vals[4])
     return fails, dep, not fails
 
 
@@ -246,8 +253,13 @@ def run(ctx):
 
     ctx.assume("onnx.defs (the installed onnx package) is the definition of 'the schema ONNX defines'; Gen/OpsetSchemas.v is "
                "extracted from it on every run and the resolve model is compared with onnx.defs.get_schema on every (domain, name, N)")
-    ctx.assume("a schema marked deprecated at version N is not an operator of opset N: nothing is required of (OpsetN, op) there "
-               "(the inherited methods that exist anyway are reported as findings with their own keys)")
+    exempt = set(_STATE["exempt"])
+    if exempt:
+        ctx.assume("nothing is required of (OpsetN, op) where onnx.defs resolves a deprecated schema AND the class of the "
+                   "deprecation version defines no method of its own (regenerated list Gen/OpsetMethods.exempt_ops: "
+                   + ", ".join(f"{domain_label(d)}:{n}" for d, n in sorted(exempt)) + "); the inherited methods that exist "
+                   "anyway are reported as findings with their own keys; a deprecated operator with a generated method of "
+                   "its own is checked like any other")
     ctx.assume("keyword-only parameters and keyword arguments are compared as sets (the translator sorts them by name): their order "
                "has no meaning in Python; inputs are compared in order")
     ctx.assume("float defaults are compared after rounding to float32 (ONNX FLOAT attributes are 32 bit), by repr")
@@ -334,8 +346,11 @@ def run(ctx):
         ctx.cover(model_failing_pairs=len(fails))
 
     mark("model-failures")
+    # ---- (2b) the generator: real opgen against the installed onnx.defs vs the checked-in classes vs the Gallina model
+    opgen_stage(ctx, R, opsets, by_cls, stats)
+    mark("opgen")
     # ---- (3) the property directly on the real objects, every (class, operator)
-    sig_cache, n_pairs, n_live, n_dep_real = {}, 0, 0, []
+    sig_cache, n_pairs, n_live, n_dep_real, n_dep_checked = {}, 0, 0, [], 0
     oracle_bad = 0
     for cn in sorted(opsets, key=lambda k: (opsets[k].domain, opsets[k].version)):
         o = opsets[cn]
@@ -354,10 +369,12 @@ def run(ctx):
                     ctx.violation(f"C17:{dc.__name__}.{name}:no-such-operator", f"{cn} has a method {name} but onnx.defs has no {name} at ({o.domain!r}, {o.version})",
                                   {"class": cn, "op": name})
                 continue
-            if s.deprecated:
-                if dc is not None:
+            if s.deprecated and (o.domain, name) in exempt:
+                if dc is not None and dc().version != int(s.since_version):
                     n_dep_real.append((cn, name))
                 continue
+            if s.deprecated:
+                n_dep_checked += 1
             n_live += 1
             ctx.case(("pair", o.domain, name, int(s.since_version), dc is not None and dc is not cls))
             if dc is None:
@@ -379,7 +396,8 @@ def run(ctx):
                 report_failure(ctx, R, opsets, by_cls, cn, name, what, stats, source="oracle")
     if n_live < 3000:
         ctx.tie_broken("harness", "oracle-degenerate", f"only {n_live} live (class, operator) pairs")
-    ctx.cover(class_operator_pairs=n_pairs, live_pairs=n_live, generated_methods=sum(len(c["methods"]) for c in classes),
+    ctx.cover(class_operator_pairs=n_pairs, live_pairs=n_live, deprecated_pairs_checked_like_live=n_dep_checked,
+              exempt_operators=sorted(f"{domain_label(d)}:{n}" for d, n in exempt), generated_methods=sum(len(c["methods"]) for c in classes),
               classes=len(classes), schemas=len(recs))
     ctx.obligation("direct oracle: inspect.signature and two recorded calls of the real method agree with onnx.defs for every live (class, operator)",
                    oracle_bad == 0, f"{oracle_bad} pairs differ")
@@ -475,7 +493,7 @@ def run(ctx):
                 which = "getitem" if item_since != want else ("contains" if cont != (s is not None) else "values.Op")
                 ctx.violation(f"C17:Opset-dynamic-lookup:{which}-disagrees-with-onnx.defs", f"{cn}[{name!r}] / in / Op() give since={item_since}/{cont}/{tr_since}, onnx.defs says {want}",
                               {"class": cn, "op": name, "getitem_since": item_since, "contains": cont, "op_since": tr_since, "onnx_defs_since": want})
-            if s is not None and not s.deprecated and ga != want:
+            if s is not None and not (s.deprecated and (o.domain, name) in exempt) and ga != want:
                 dyn_bad_direct += 1
                 ctx.violation(f"C17:{R.defining_class(type(o), name).__name__ if is_static else cn}.{name}:eager-vs-translation", f"{cn}.{name} evaluates schema since={ga} eagerly but {cn}[{name!r}] (translation) is since={want}",
                               {"class": cn, "op": name, "eager_since": ga, "translation_since": want})
@@ -612,6 +630,81 @@ def run(ctx):
     ctx.cover(rule="exhaustive over the regenerated data: every generated method x every class that sees it x every onnx.defs schema "
                    "(proof by evaluation + direct oracle on the imported classes); recorded calls: 4-8 argument shapes per method incl. "
                    "calls Python rejects; execution: table of ~75 operators, every since_version, defining + one inheriting class")
+
+
+def opgen_stage(ctx, R, opsets, by_cls, stats):
+    import os
+
+    from harness import c17_opgen as G
+    ctx.assume("opgen is driven as opgen/__main__.py drives it (module base name and minimum opset version read from that file, "
+               "the documented exclusion ai.onnx.preview.training/1), writing into a scratch directory; black / isort are "
+               "formatting only and are not run (asts are compared)")
+    classes, recs, exempt = _STATE["classes"], _STATE["recs"], _STATE["exempt"]
+    # the Gallina generator against the checked-in classes (also a compiled lemma: OpsetGen.gen_classes_emitted)
+    ed, nwf = _STATE.get("emitted_diff"), _STATE.get("not_wf")
+    out = os.path.join(ctx.cases_dir, "opgen_out")
+    info, err = G.run_generator(common.REPO, out)
+    if info is None:
+        ctx.tie_broken("translator", "opgen", err)
+        return
+    diffs, st, gen_classes = G.compare(common.REPO, out)
+    gen_exempt = E.exempt_ops(gen_classes, recs)
+    dep_ops = sorted({(r["domain"], r["name"]) for r in recs if r["deprecated"]})
+    variant = "skips-deprecated" if gen_exempt == dep_ops else ("emits-deprecated" if not gen_exempt else "mixed")
+    ctx.cover(opgen=dict(st, generated_files=info["files"], generated_ops=info["ops"], unsupported=info["unsupported"],
+                         excluded=info["excluded"], variant=variant, differences=len(diffs)))
+    for c in gen_classes:
+        for m in c["methods"]:
+            ctx.case(("opgen-method", c["domain"], m["name"], m["triple"][1]))
+    # does what the generator writes NOW satisfy the schemas?  Same Coq test, on the generator's own output.
+    gen_fails = {}
+    if diffs:
+        body = (E.classes_defs(gen_classes, gen_exempt, prefix="g_") +
+                '\nDefinition show3 (x : string * string * list string) : string := '
+                '(fst (fst x) ++ "|" ++ snd (fst x) ++ "|" ++ String.concat "," (snd x))%string.\n'
+                "Eval vm_compute in (map show3 (registry_failures (exempt_in g_exempt_ops) OpsetSchemas.schemas g_classes)).\n"
+                'Eval vm_compute in (map (fun x => (fst x ++ "|" ++ String.concat "," (snd x))%string) '
+                "(emitted_diff (exempt_in g_exempt_ops) OpsetSchemas.schemas g_classes)).")
+        body = "Local Open Scope string_scope.\nLocal Open Scope Z_scope.\n" + body
+        ok, vals, raw = safe_eval(ctx, body, "opgen_out")
+        if ok and len(vals) == 2:
+            for x in parse_str_list(vals[0]):
+                c_, op_, what_ = x.split("|")
+                gen_fails[(c_, op_)] = what_
+            _STATE["gen_emitted_diff"] = parse_str_list(vals[1])
+        else:
+            ctx.tie_broken("translator", "opgen-output", "model does not evaluate on the generator's output: " + raw[-1200:])
+    seen = set()
+    for d in diffs:
+        key = f"C17:opgen-output-differs:{d['cls']}.{d['op']}:{d['field']}"
+        if key in seen:
+            continue
+        seen.add(key)
+        gf = gen_fails.get((d["cls"], d["op"]))
+        ctx.violation(key, f"opgen run on the installed onnx.defs does not reproduce the checked-in {d['cls']}.{d['op']} ({d['field']}): "
+                      f"generator {d['generator']!r} vs checked-in {d['checked_in']!r}"
+                      + (f"; the generator's method fails the schema test: {gf}" if gf else ""),
+                      dict(d, generator_fails_schema_test=gf, how="python opgen --exclude ai.onnx.preview.training/1 into a scratch directory"))
+    for (c_, op_), what_ in sorted(gen_fails.items()):
+        if not any(d["cls"] == c_ and d["op"] == op_ for d in diffs):
+            ctx.violation(f"C17:opgen-output:{c_}.{op_}:{what_.split(',')[0]}", f"what opgen generates for {c_}.{op_} does not mirror the schema: {what_}",
+                          {"class": c_, "op": op_, "what": what_})
+    ctx.obligation(f"translation validation: opgen on the installed onnx.defs reproduces the checked-in classes "
+                   f"({st['methods_compared']} methods, {st['classes_generated']} classes: records equal; "
+                   f"{st['method_defs_ast_equal']} whole defs ast-equal)", not diffs, "; ".join(f"{d['cls']}.{d['op']}:{d['field']}" for d in diffs[:8]))
+    if st["methods_compared"] < 500:
+        ctx.tie_broken("harness", "opgen-degenerate", f"only {st['methods_compared']} methods compared")
+    # the Gallina model of the generator vs the real generator's output (= the checked-in classes when there is no difference)
+    if ed is not None:
+        model_ok = not ed and not nwf
+        if not diffs and not model_ok:
+            ctx.tie_broken("correspondence", "generator-model",
+                           f"Registry/OpsetEmit.emit_methods differs from what opgen generates: classes {ed[:6]}; schemas failing schema_wfb: {nwf[:6]}")
+        ctx.obligation(f"correspondence: emit_methods (Gallina model of the generator) = methods of all {len(classes)} classes as opgen "
+                       f"generates them; all {len(recs)} onnx.defs schemas pass schema_wfb", model_ok,
+                       f"{ed[:6]} {nwf[:6]}")
+    ctx.sample({"opgen": {"variant": variant, "generated_ops": info["ops"], "unsupported": info["unsupported"],
+                          "records_equal": not diffs, "defs_ast_equal": st["method_defs_ast_equal"]}})
 
 
 def report_failure(ctx, R, opsets, by_cls, cn, op, what, stats, source):
